@@ -9,6 +9,8 @@ only when virtual times differ or when the global sequence order alone already
 decides (see DESIGN.md section 5).
 """
 
+import asyncio
+
 from . import spec as S
 from .history import History, INF
 from .runner import NOTDONE
@@ -132,6 +134,18 @@ def c03(hist):
             "admissible tree, run() did not return: {} ({})"
             .format(run.outcome, run.value)))
         return out
+    # ... and terminates by returning its verdict or raising what the
+    # documentation says it raises, not by dying of an internal error
+    if run.outcome == 'exc' and isinstance(run.value, Exception) and \
+            not isinstance(run.value, (TimeoutError, asyncio.CancelledError)) \
+            and not any(run.value is o.get('exc')
+                        for o in run.ctx.objs.values()):
+        win = any(n['window'] for n, _, _ in S.walk(hist.top) if S.is_sched(n))
+        out.append(Violation(
+            'C03', 'run-dies-with-internal-error',
+            "windowed" if win else "unwindowed",
+            "admissible tree, run() raised {!r}, which no job raised"
+            .format(run.value)))
     # a scheduler with a timeout ends within a bound that does not depend on
     # what its jobs would do
     stall = hist.instants[-1] - hist.instants[0] if run.knobs['stall_den'] \
@@ -862,6 +876,15 @@ def c08(hist, stats=None):
                 'C08', 'timeout-verdict-without-expiry', _site(sr),
                 "{} has no timeout but reports one (why()={!r})".format(
                     sid, sr.why)))
+        if sr.begin is not None and sr.verdict == 'success':
+            # a timeout that did not expire has no effect, also on what the
+            # scheduler says about itself afterwards
+            tup = run.post_sched.get(sid)
+            if tup and tup[0] != 'error' and tup[0]:
+                out.append(Violation(
+                    'C08', 'timeout-reported-by-a-successful-run', _site(sr),
+                    "{} succeeded but failed_time_out()={!r} why()={!r}"
+                    .format(sid, tup[0], tup[2])))
         if sr.timeout is None or sr.begin is None:
             continue
         if sr.exp_t not in (None, INF) and hist.instants[-1] > sr.exp_t \
